@@ -57,7 +57,18 @@ static void run(Src &s) {
       }
     }
   }
-  // path is the file read
+  // asking for the keys of a section the file does not have answers "no such key" and leaves the listing alone
+  {
+    size_t kn = 0;
+    char **ks = nullptr;
+    econf_err eq = econf_getKeys(kf, "vf-absent-section", &kn, &ks);
+    if (eq == ECONF_SUCCESS) econf_freeArray(ks);
+    Observed again = observe(kf);
+    if (eq == ECONF_SUCCESS || again.groups != ob.groups) {
+      econf_freeFile(kf);
+      VF_FAIL("listing-changed", "econf_getKeys for an absent section: rc=" << eq << "; sections before: " << ob.groups.size() << ", after: " << again.groups.size() << "\nafter:\n" << show(again));
+    }
+  }
   econf_freeFile(kf);
 }
 
